@@ -1,6 +1,8 @@
 """Sidecar JSON file storing a skeleton to create stubs and patch containers."""
 from __future__ import annotations
 
+from copy import deepcopy
+
 from pathlib import Path
 from typing import Any, Dict, List, Optional, Union
 from uuid import UUID, uuid1
@@ -239,9 +241,9 @@ class IH5MFRecord(IH5Record):
         # create manifest for the new patch
         mf = self._fresh_manifest()
         if self._manifest is not None:  # inherit attached data, if manifest exists
-            mf.manifest_exts = self.manifest.manifest_exts
+            mf.manifest_exts = deepcopy(self.manifest.manifest_exts)
         if exts is not None:  # override, if extensions provided
-            mf.manifest_exts = exts
+            mf.manifest_exts = deepcopy(exts)  # (the caller keeps the passed dict)
 
         old_ub = self._ublock(-1)  # keep ref in case anything goes wrong
         # prepare new user block that links to the prospective manifest
